@@ -1234,6 +1234,18 @@ def c09_family(tier, rnd):
             m = [Open(dm="m1", name="div", sattr=[]), Text("M[", *_P()), Open(ds="s", name="span", sattr=[], **kw), Text("D", *_P()), CLOSE, Text("|", *_P()), Text("]"), CLOSE]
             main = [Text("pre", *_P())] + mk_use("m1", 1, [mk_fill("s", "s1")] if filled else []) + [Text("post", *_P())]
             build(main, m, al, "P12:%s:%s" % (kind, filled), init={"x": S("a")})
+    # P13: a filled slot inside an element of the macro that binds a name locally while a global of that name exists
+    # (defined by the macro itself earlier, or by the caller before the use): after the filler returned the local is
+    # still what the name means inside that element
+    for who in ("macro", "caller"):
+        for filled in (True, False):
+            al = Alloc(tier)
+            gdef = [Open(name="span", define=[(True, "g", al.call("define", [S("c")]))], sattr=[]), Text("G", *_P()), CLOSE]
+            m = [Open(dm="m1", name="div", sattr=[]), Text("M[", *_P())] + (gdef if who == "macro" else []) + \
+                [Open(name="p", define=[(False, "g", al.call("define", [S("b")]))], sattr=[]), Text("L", *_P()),
+                 Open(ds="s", name="i", sattr=[]), Text("D", *_P()), CLOSE, Text("after-slot", *_P()), CLOSE, Text("after-local", *_P()), Text("]"), CLOSE]
+            main = [Text("pre", *_P())] + (gdef if who == "caller" else []) + mk_use("m1", 1, [mk_fill("s", "s1")] if filled else []) + [Text("post", *_P())]
+            build(main, m, al, "P13:%s:%s" % (who, filled))
     # P8: macroname is bound to the name used, inside the macro only (machine oracle only)
     al = Alloc(tier)
     m = [Open(dm="m1", name="div", sattr=[]), Text("M[", var("macroname"), "]"), CLOSE]
@@ -1267,6 +1279,15 @@ def c12_metal(tier, rnd):
                 lib = m1 + [Text("\n")] + m2
                 progs.append(program(items + lib, dict(al.dom), main=len(items), libs=[{"from": len(items) + 1, "to": len(items) + len(lib)}],
                                      fam="C12metal:%s:%s:%s:%s" % (c, nested, fl, oe)))
+        # a macro rendered in place (its define-macro element stands in the flow): a failure inside it is reported with its
+        # own expression only -- not with whatever the surrounding template evaluated before the element
+        al = Alloc(tier)
+        d = [S("a"), EXC(c)]
+        items = [Text("pre\n ", al.call("content", d), "\n"), Open(name="div", define=[(False, "x", al.call("define", [S("b")]))], sattr=[]),
+                 Open(dm="m1", name="p", sattr=[]), Text("M\n  ", al.call("content", d), "\n"),
+                 Open(dm="m2", name="i", sattr=[]), Text("N", al.call("content", d)), CLOSE, Text("z", al.call("content", d)), CLOSE,
+                 Text("after", al.call("content", d)), CLOSE]
+        progs.append(program(items, dict(al.dom), fam="C12metal:%s:inplace" % c))
     return progs
 
 
@@ -1425,6 +1446,6 @@ def c10_family(tier, rnd):
                      Open(name="p", oe=(False, const(S("a"))), sattr=[]),
                      Open(name="span", i18n=sets, sattr=[]), Open(name="i", tr="", sattr=[]), Text("inside"), CLOSE,
                      Text("t", al.call("content", [S("a"), EXC("ZeroDivisionError")])), CLOSE, CLOSE,
-                     Open(name="b", tr="", sattr=[]), Text("after"), CLOSE, Text("m", al.call("content", M)), CLOSE]
+                     Open(name="b", tr="", sattr=[]), Text("after"), CLOSE, Text("m", al.call("content", M))] + sites(al) + [CLOSE]
             add(items, al, "T8:%s/%s" % (sorted(sets.items()), sorted(outer.items())), "identity")
     return progs
